@@ -618,17 +618,20 @@ package res
 //@ # ================================================================ protocol conformance (C07)
 //@ props C07
 //@ func (s *Service) TokenEvent(cid string, token interface{})
+//@   thread any
 //@   requires s != nil && !isNil(s.nc)
 //@   modifies ghost.trn, ghost.trk, ghost.tra, ghost.pubn, alloc
 //@   callback onError benign
 //@   may_panic
 //@   ensures_on_panic !(len(cid) > 0 && forall(k, 0, len(cid), partch(cid[k])))
 //@ func (s *Service) TokenEventWithID(cid string, tokenID string, token interface{})
+//@   thread any
 //@   requires s != nil && !isNil(s.nc)
 //@   modifies ghost.trn, ghost.trk, ghost.tra, ghost.pubn, alloc
 //@   callback onError benign
 //@   ensures_on_panic !(len(cid) > 0 && forall(k, 0, len(cid), partch(cid[k])))
 //@ func (s *Service) TokenReset(subject string, tokenID []string)
+//@   thread any
 //@   requires s != nil && !isNil(s.nc)
 //@   modifies ghost.trn, ghost.trk, ghost.tra, ghost.pubn, alloc
 //@   callback onError benign
@@ -678,6 +681,7 @@ package res
 //@   cond res.Service.workcond
 //@   protects res.Service.rwork, res.Service.workqueue, res.Service.workbuf, res.work.queue, elems:res.Service.workqueue, elems:res.work.queue, map:res.Service.rwork
 //@   owns wst, wholder, wincb, closing, qhead, qpos
+//@   shared res.Service.nc, res.Service.inCh
 //@   invariant I0: s.rwork != nil
 //@   invariant I1: imp(s.workqueue != nil, forall(a, 0, len(s.workqueue), s.workqueue[a] != nil && wst[ref(s.workqueue[a])] == 1 && qpos[ref(s.workqueue[a])] == qhead + a))
 //@   invariant I2: imp(!closing, forallge(w, 1, imp(wst[w] == 1, s.workqueue != nil && 0 <= qpos[w] - qhead && qpos[w] - qhead < len(s.workqueue) && ref(s.workqueue[qpos[w] - qhead]) == w)))
@@ -736,3 +740,11 @@ package res
 //@   requires s != nil && !isNil(s.nc)
 //@   modifies all
 //@   ghost unlock 1 before :: set closing = true
+//@   ghost signal :: assert order.broadcast-after-nil: closing
+//@   ensures once: connCloses == old(connCloses) + 1 && connClosed
+//@
+//@ func (s *Service) Shutdown() (err error)
+//@   requires s != nil && !isNil(s.nc)
+//@   modifies all
+//@   ensures drained: imp(isNil(err), wgcount == 0 && connCloses == old(connCloses) + 1)
+//@   ensures refused: imp(!isNil(err), connCloses == old(connCloses))
